@@ -251,8 +251,11 @@ Fixpoint check_steps_m (k : Z) (s : fsys * obj) (todo : list (op * obs)) : Z :=
       if m then check_steps_m (k + 1) (fs, o) todo' else (16 * k + 1)%Z
   end.
 
+(* CHistX: the directory already holds other files when the history starts (`extra`: zero bytes, a lone newline, blanks,
+   another yanny file, garbage, a directory or a read-only file -- all that matters to write() is that the name exists) *)
 Inductive case := CHist (d0 : doc) (p0 : path) (raw : bool) (steps : list (op * obs))
-                | CText (text : bytes) (p0 : path) (raw : bool) (init : ostate) (steps : list (op * obs)).
+                | CText (text : bytes) (p0 : path) (raw : bool) (init : ostate) (steps : list (op * obs))
+                | CHistX (d0 : doc) (p0 : path) (raw : bool) (extra : fsys) (steps : list (op * obs)).
 Definition run_case (c : case) : Z :=
   match c with
   | CHist d0 p0 raw steps =>
@@ -263,6 +266,11 @@ Definition run_case (c : case) : Z :=
   | CText text p0 raw init steps =>
       match init_text text p0 raw with
       | Some s => if state_agrees (o_state (snd s)) init then check_steps_m 1 s steps else 9%Z
+      | None => 8%Z
+      end
+  | CHistX d0 p0 raw extra steps =>
+      match init_state d0 p0 raw with
+      | Some s => check_steps 1 (fst s ++ extra, snd s) d0 [] steps
       | None => 8%Z
       end
   end.
